@@ -40,7 +40,7 @@ CFG = dict(
                "(brk_safe_b g, which implies wf_safe_b: every bracketed node of every match has the opening bracket token as its first child and "
                "the closing bracket token of the same pair of a bracket set at its end), Pem_bracket_shape_arbitrary_graph_refuted. "
                "Still only observed on every tree (blocking monitors): nodes start/end with code; the transfer of the bracket shape through apply "
-               "to the tree node; conditionals are valued under the dumped indentation configuration.",
+               "to the tree node; conditional metas are checked under the dumped indentation configuration and the two extreme ones (all flags set / none), not under every mixed valuation.",
     level_note="Trusted: Coq kernel; hand-written models tied by sampled correspondence; which segments a fix batch edits is an oracle "
                "(its contract H_edit_pre is monitored on every recorded position_segments call); rule bodies and the reflow engine are not "
                "modelled; columns are byte based as in the code.",
@@ -61,7 +61,8 @@ CFG = dict(
          "dropped bracket bodies put into 21 statement skeletons (expression, list, subquery positions and the free-form bracketed regions "
          "of the grammars) x 13 dialects and into the bracket pairs of corpus files. "
          "non-trivial = newline in raw / >= 3 children / a segment moved / >= 2 metas",
-    assumptions=["the lexer's tokens tile the text (C01); inputs where the token text differs from the input are skipped and counted",
+    assumptions=["Pem balance theorem: no lexer token carries the kind of a named node with a non-zero net Indent/Dedent value (SelectClause; TransformClause in sparksql/databricks) - node kinds the lexers never assign; not monitored",
+                 "the lexer's tokens tile the text (C01); inputs where the token text differs from the input are skipped and counted",
                  "H_WF_root_match of C02 for the parse-side theorem",
                  "H_edit_pre: segments handed to position_segments that still carry a marker are consistent below it (monitored on every recorded call, blocking)",
                  "offsets and columns are bytes (the implementation's unit)",
